@@ -1,0 +1,6 @@
+//go:build !verif
+
+package hh
+
+// verifPoint marks a step for the verification harness; it does nothing in normal builds.
+func verifPoint(name string) {}
